@@ -113,6 +113,8 @@ ScalarOp(op, x) ==
     /\ op \in OPS
     /\ \E s \in SC :
         /\ (s.im # 0 => x.cx)
+        \* a scalar that float32 cannot hold (2^24+1): only for +/-, where the exact result still fits TLC's integers
+        /\ (s.kind = "intbig" => op \in {"add_s", "radd_s", "sub_s", "rsub_s"})
         /\ (op = "div_s" => (s.im = 0 /\ s.re \in {-4, -2, -1, 1, 2, 4}))    \* exact in binary floating point
         /\ LET X == Mk(x)  DX == Full(X)  c == G(s)  st == ScalarStatus(op, s)
                r1 == [p \in 1..Len(x.R) |-> IF p = 1 \/ p = Len(x.R) THEN 1 ELSE x.R[p] + 1]
